@@ -23,7 +23,7 @@ REPO = os.environ.get("VERIF_REPO", "/repo")
 NSHARDS = 16
 
 ACC = re.compile(r'^<<"ACC", (\d+)>>')
-AT = re.compile(r'^<<"AT", (\d+), (\d+), "([^"]*)", "([^"]*)">>')
+AT = re.compile(r'^"AT\|(\d+)\|(\d+)\|([^|"]*)\|([^|"]*)"$')
 
 # (op regex, clause regex) -> properties
 GRAPH_ATTR = [
@@ -61,7 +61,7 @@ def validate(module, cfg, tracef, workdir):
     if "Model checking completed" not in out:
         raise tlc.TlcFailure("%s did not complete:\n%s" % (module, out[-3000:]))
     acc, front = set(), {}
-    for line in tlc.printed(out):
+    for line in out.splitlines():
         m = ACC.match(line)
         if m:
             acc.add(int(m.group(1)))
